@@ -647,7 +647,7 @@ func exhaustiveSubspaces(prop, tier string) []string {
 		}
 		return []string{"every crash index i in [0,2^h] x 4 secret forms x 4 restore-plan kinds, each drained to the end of the key's life: stub leaves h in {4,6}, real leaves h = 4", "every single forward jump i -> j compared with a twin that took unit steps: stub leaves h in {4,6}", "signing path vs fast-forward path compared at every index of the key (live signs, twin only SetIndex): stub leaves h in {4,...,12}, real leaves h = 6"}
 	case "C09":
-		return []string{"entropy failure after k bytes for every k in [0,48), XMSS and Dilithium", "every (height, hash function) cell of the listed heights with all four XMSS restore paths", "every one of the 4096 mnemonic word indices occurs in a secret that is exported and recovered, through the 48-byte (Dilithium) and the 51-byte (XMSS) codec path"}
+		return []string{"entropy failure after k bytes for every k in [0,48), as a device error and as a source running dry (io.EOF), XMSS and Dilithium", "every (height, hash function) cell of the listed heights with all four XMSS restore paths", "every one of the 4096 mnemonic word indices occurs in a secret that is exported and recovered, through the 48-byte (Dilithium) and the 51-byte (XMSS) codec path"}
 	}
 	return []string{}
 }
@@ -673,7 +673,7 @@ func missingProbes(prop, tier string, a *agg) []string {
 		}
 	case "C09":
 		need = []string{"create:xmss:seed", "create:xmss:entropy", "create:dilithium:seed", "create:dilithium:entropy", "entropy-failure:refused"}
-		for _, f := range []string{"entropy-short-read", "entropy-empty-read", "entropy-error", "entropy-eof-with-last-bytes"} {
+		for _, f := range []string{"entropy-short-read", "entropy-empty-read", "entropy-error", "entropy-ran-dry(EOF)", "entropy-eof-with-last-bytes"} {
 			if a.faults[f] == 0 {
 				need = append(need, "fault:"+f)
 			}
